@@ -845,3 +845,322 @@ Example C04_variant_decode_bool_map_refused :
   decode Ex OneofExamples.fs (q "NestG") (JObj [(s "bm", JObj [(s "name", JStr (s "n"))]); (s "kind", JStr (s "bm"))])
     = ROk [(s "bm", FM [(s "name", vstr "n")])].
 Proof. exact OneofExamples.variant_decode_bool_map_refused. Qed.
+
+(* ---- appended by P15_full ---- *)
+From SebufProofs Require FlattenFacts CodecAll.
+
+(* The flatten codec (internal/httpgen/flatten.go), in general.  In the region defects_C04 = [] no flatten field is
+   populated (D4FlattenReset fires for every populated one, empty child included): MarshalJSON is protojson followed by
+   no-op folds, UnmarshalJSON's extraction finds nothing and protojson reads the object back.  Two computable side
+   conditions, each shown necessary below:
+     FlattenFacts.flatten_children_known  every flatten field is a field of a declared message type
+                                          (annotations.ValidateFlattenField / protoc guarantee it; the decoder MODEL
+                                          declines otherwise);
+     FlattenFacts.flatten_probe_ok        no key the decoder probes (flatten_prefix ++ JSON name of a child field) is the
+                                          JSON name of a populated field of the parent itself — otherwise the parent's own
+                                          field is taken for the child's, deleted, and lost when protojson.Unmarshal resets
+                                          the message.  annotations.ValidateFlattenCollisions refuses such schemas
+                                          (FlattenFacts.flatten_no_collision is its schema-level form, see _schema below). *)
+Theorem C04_roundtrip_flatten_unset : forall E, ExtLaws E -> forall sc tn md m j,
+  find_message (all_messages sc) tn = Some md -> owner_of sc md = Own FtFlatten ->
+  wt sc (KMessage tn) (FM m) = true -> defects_C04 sc tn m = [] ->
+  FlattenFacts.flatten_children_known sc md = true -> FlattenFacts.flatten_probe_ok sc md m = true ->
+  encode E sc tn m = ROk j -> decode E sc tn j = ROk (norm sc tn m).
+Proof. exact FlattenFacts.flatten_roundtrip_unset. Qed.
+Print Assumptions C04_roundtrip_flatten_unset.
+
+(* the same for OneofPj.wt1 values: the parent may declare plain oneofs beside its flatten fields (wt rejects such types) *)
+Theorem C04_roundtrip_flatten_unset_wt1 : forall E, ExtLaws E -> forall sc tn md m j,
+  find_message (all_messages sc) tn = Some md -> owner_of sc md = Own FtFlatten ->
+  OneofPj.wt1 sc tn m = true -> defects_C04 sc tn m = [] ->
+  FlattenFacts.flatten_children_known sc md = true -> FlattenFacts.flatten_probe_ok sc md m = true ->
+  encode E sc tn m = ROk j -> decode E sc tn j = ROk (norm sc tn m).
+Proof. exact FlattenFacts.flatten_roundtrip_unset1. Qed.
+Print Assumptions C04_roundtrip_flatten_unset_wt1.
+
+Theorem C04_roundtrip_flatten_unset_schema : forall E, ExtLaws E -> forall sc tn md m j,
+  find_message (all_messages sc) tn = Some md -> owner_of sc md = Own FtFlatten ->
+  wt sc (KMessage tn) (FM m) = true -> defects_C04 sc tn m = [] ->
+  FlattenFacts.flatten_children_known sc md = true -> FlattenFacts.flatten_no_collision sc md = true ->
+  encode E sc tn m = ROk j -> decode E sc tn j = ROk (norm sc tn m).
+Proof. exact FlattenFacts.flatten_roundtrip_unset_schema. Qed.
+Print Assumptions C04_roundtrip_flatten_unset_schema.
+
+(* the region: defects_C04 = [] on a flatten owner says exactly that no flatten field is populated *)
+Theorem C04_flatten_defect_free_is_unset : forall sc tn md m,
+  lookup_message sc tn = Some md -> owner_of sc md = Own FtFlatten ->
+  defects_C04 sc tn m = [] -> FlattenFacts.flatten_unset md m = true.
+Proof. exact FlattenFacts.defects_nil_iff_flatten_unset. Qed.
+Print Assumptions C04_flatten_defect_free_is_unset.
+
+(* the complement, for all schemas and values (C04_refuted_flatten_reset as a theorem): the decoder, on ANY object, returns
+   a flatten field only when a key of the object itself addresses it; hence a value with a populated flatten field —
+   whatever the child, the empty one included — is never given back.  Side condition, on the JSON the encoder wrote: no key
+   of it addresses a populated flatten field (a limit of the proof, see C04_flatten_set_never_keys_off_limit) *)
+Theorem C04_flatten_decode_drops : forall E sc tn md kv m',
+  str_eqb tn ts_name = false -> is_wkt_other tn = false ->
+  find_message (all_messages sc) tn = Some md -> owner_of sc md = Own FtFlatten ->
+  forallb (fun e => match field_of_key md (fst e) with Some g => negb (is_flatten g) | None => true end) kv = true ->
+  decode E sc tn (JObj kv) = ROk m' ->
+  forall name x g, In (name, x) m' -> In g (m_fields md) -> f_name g = name -> OneofPj.msg_ok1 md = true -> is_flatten g = false.
+Proof. exact FlattenFacts.flatten_decode_drops. Qed.
+Print Assumptions C04_flatten_decode_drops.
+
+Theorem C04_flatten_set_never_roundtrips : forall E sc tn md m j,
+  lookup_message sc tn = Some md -> owner_of sc md = Own FtFlatten ->
+  wt sc (KMessage tn) (FM m) = true ->
+  FlattenFacts.flatten_unset md m = false ->
+  encode E sc tn m = ROk j ->
+  FlattenFacts.keys_off_set_flatten md m j = true ->
+  decode E sc tn j <> ROk (norm sc tn m).
+Proof. exact FlattenFacts.flatten_set_never_roundtrips. Qed.
+Print Assumptions C04_flatten_set_never_roundtrips.
+
+(* the same with schema-level side conditions only (and for wt1 values), when every populated flatten child is rendered by
+   reflection (FlattenFacts.flatten_children_reflected: singular / optional field of a message type that owns no codec):
+   FlattenFacts.flatten_self_free — no key flatten_prefix ++ PROTO name of a child field addresses a flatten field of the
+   parent — gives the condition on the encoder's JSON *)
+Theorem C04_flatten_set_never_roundtrips_reflected : forall E sc tn md m j,
+  lookup_message sc tn = Some md -> owner_of sc md = Own FtFlatten ->
+  OneofPj.wt1 sc tn m = true ->
+  FlattenFacts.flatten_unset md m = false ->
+  FlattenFacts.flatten_children_reflected sc md m = true -> FlattenFacts.flatten_self_free sc md = true ->
+  encode E sc tn m = ROk j ->
+  decode E sc tn j <> ROk (norm sc tn m).
+Proof. exact FlattenFacts.flatten_set_never_roundtrips_reflected. Qed.
+Print Assumptions C04_flatten_set_never_roundtrips_reflected.
+
+(* non-vacuity: shared schema xs (Person, Post: the flatten field unset, the other field populated) and two prefixed
+   flatten fields side by side (FlattenFacts.fls); flat_case_ok lists every hypothesis and the evaluated conclusion *)
+Example C04_roundtrip_flatten_unset_nonvacuous :
+  FlattenFacts.flat_case_ok xs (q "Person") [(s "id", vstr "1")] (JObj [(s "id", JStr (s "1"))]) /\
+  FlattenFacts.flat_case_ok xs (q "Post") [(s "id", vstr "p")] (JObj [(s "id", JStr (s "p"))]) /\
+  FlattenFacts.flat_case_ok FlattenFacts.fls (q "Pre") [(s "street", vstr "s")] (JObj [(s "street", JStr (s "s"))]).
+Proof. exact FlattenFacts.flatten_roundtrip_unset_nonvacuous. Qed.
+Print Assumptions C04_roundtrip_flatten_unset_nonvacuous.
+
+(* flatten_probe_ok is needed: message Clash { string street = 1; Addr home = 2 [flatten] }, Addr { string street = 1; ... }:
+   {"street":"s"} is decoded to the empty message although no flatten field was populated and no defect class fires *)
+Example C04_roundtrip_flatten_unset_needs_probe_ok :
+  let m := [(s "street", vstr "s")] in
+  (exists md, find_message (all_messages FlattenFacts.fls) (q "Clash") = Some md /\ owner_of FlattenFacts.fls md = Own FtFlatten /\
+              FlattenFacts.flatten_children_known FlattenFacts.fls md = true /\
+              FlattenFacts.flatten_probe_ok FlattenFacts.fls md m = false /\ FlattenFacts.flatten_no_collision FlattenFacts.fls md = false) /\
+  wt FlattenFacts.fls (KMessage (q "Clash")) (FM m) = true /\ defects_C04 FlattenFacts.fls (q "Clash") m = [] /\
+  encode Ex FlattenFacts.fls (q "Clash") m = ROk (JObj [(s "street", JStr (s "s"))]) /\
+  decode Ex FlattenFacts.fls (q "Clash") (JObj [(s "street", JStr (s "s"))]) = ROk [] /\
+  norm FlattenFacts.fls (q "Clash") m = m.
+Proof. exact FlattenFacts.flatten_roundtrip_unset_needs_probe_ok. Qed.
+
+(* flatten_children_known is needed (in the model): flatten on a scalar field, on a field of an undeclared type *)
+Example C04_roundtrip_flatten_unset_needs_children_known :
+  let m := [(s "id", vstr "1")] in
+  (exists md, find_message (all_messages FlattenFacts.fls) (q "Scalar") = Some md /\ owner_of FlattenFacts.fls md = Own FtFlatten /\
+              FlattenFacts.flatten_children_known FlattenFacts.fls md = false /\ FlattenFacts.flatten_probe_ok FlattenFacts.fls md m = true) /\
+  wt FlattenFacts.fls (KMessage (q "Scalar")) (FM m) = true /\ defects_C04 FlattenFacts.fls (q "Scalar") m = [] /\
+  encode Ex FlattenFacts.fls (q "Scalar") m = ROk (JObj [(s "id", JStr (s "1"))]) /\
+  decode Ex FlattenFacts.fls (q "Scalar") (JObj [(s "id", JStr (s "1"))]) = RUnm (s "unknown message type") /\
+  (exists md, find_message (all_messages FlattenFacts.fls) (q "Gone") = Some md /\ owner_of FlattenFacts.fls md = Own FtFlatten /\
+              FlattenFacts.flatten_children_known FlattenFacts.fls md = false /\ FlattenFacts.flatten_probe_ok FlattenFacts.fls md m = true) /\
+  wt FlattenFacts.fls (KMessage (q "Gone")) (FM m) = true /\ defects_C04 FlattenFacts.fls (q "Gone") m = [] /\
+  encode Ex FlattenFacts.fls (q "Gone") m = ROk (JObj [(s "id", JStr (s "1"))]) /\
+  decode Ex FlattenFacts.fls (q "Gone") (JObj [(s "id", JStr (s "1"))]) = RUnm (s "unknown message type").
+Proof. exact FlattenFacts.flatten_roundtrip_unset_needs_children_known. Qed.
+
+(* C04_flatten_set_never_roundtrips: every hypothesis holds on the shared schema, child non-empty and child empty *)
+Example C04_flatten_set_never_nonvacuous :
+  (let m := [(s "id", vstr "1"); (s "home", FM [(s "street", vstr "s")])] in
+   let j := JObj [(s "id", JStr (s "1")); (s "street", JStr (s "s"))] in
+   (exists md, lookup_message xs (q "Person") = Some md /\ owner_of xs md = Own FtFlatten /\
+               FlattenFacts.flatten_unset md m = false /\ FlattenFacts.keys_off_set_flatten md m j = true) /\
+   wt xs (KMessage (q "Person")) (FM m) = true /\ defects_C04 xs (q "Person") m = [D4FlattenReset] /\
+   encode Ex xs (q "Person") m = ROk j /\ decode Ex xs (q "Person") j = ROk [(s "id", vstr "1")]) /\
+  (let m := [(s "id", vstr "1"); (s "home", FM [])] in
+   let j := JObj [(s "id", JStr (s "1"))] in
+   (exists md, lookup_message xs (q "Person") = Some md /\ owner_of xs md = Own FtFlatten /\
+               FlattenFacts.flatten_unset md m = false /\ FlattenFacts.keys_off_set_flatten md m j = true) /\
+   wt xs (KMessage (q "Person")) (FM m) = true /\ defects_C04 xs (q "Person") m = [D4FlattenReset] /\
+   encode Ex xs (q "Person") m = ROk j /\ decode Ex xs (q "Person") j = ROk [(s "id", vstr "1")]).
+Proof. exact FlattenFacts.flatten_set_never_nonvacuous. Qed.
+(* its side condition fails here (Self { Inner a_b = 1 [flatten] }, Inner { string a_b = 1 }: the flattened child key
+   "a_b" is the proto name of the flatten field) and the value is still not given back: a limit of the proof *)
+Example C04_flatten_set_never_keys_off_limit :
+  let m := [(s "a_b", FM [(s "a_b", vstr "x")])] in
+  let j := JObj [(s "a_b", JStr (s "x"))] in
+  (exists md, lookup_message FlattenFacts.fls (q "Self") = Some md /\ owner_of FlattenFacts.fls md = Own FtFlatten /\
+              FlattenFacts.flatten_unset md m = false /\ FlattenFacts.keys_off_set_flatten md m j = false) /\
+  wt FlattenFacts.fls (KMessage (q "Self")) (FM m) = true /\
+  encode Ex FlattenFacts.fls (q "Self") m = ROk j /\ decode Ex FlattenFacts.fls (q "Self") j = RErr (s "expected object").
+Proof. exact FlattenFacts.flatten_set_never_keys_off_limit. Qed.
+
+Example C04_flatten_set_never_reflected_nonvacuous :
+  (let m := [(s "id", vstr "1"); (s "home", FM [(s "street", vstr "s")])] in
+   (exists md, lookup_message xs (q "Person") = Some md /\ owner_of xs md = Own FtFlatten /\ FlattenFacts.flatten_unset md m = false /\
+               FlattenFacts.flatten_children_reflected xs md m = true /\ FlattenFacts.flatten_self_free xs md = true) /\
+   OneofPj.wt1 xs (q "Person") m = true) /\
+  (let m := [(s "id", vstr "1"); (s "detail", FM [(s "body_text", vstr "b")])] in
+   (exists md, lookup_message xs (q "Post") = Some md /\ owner_of xs md = Own FtFlatten /\ FlattenFacts.flatten_unset md m = false /\
+               FlattenFacts.flatten_children_reflected xs md m = true /\ FlattenFacts.flatten_self_free xs md = true) /\
+   OneofPj.wt1 xs (q "Post") m = true /\
+   encode Ex xs (q "Post") m = ROk (JObj [(s "id", JStr (s "1")); (s "body_text", JStr (s "b"))]) /\
+   decode Ex xs (q "Post") (JObj [(s "id", JStr (s "1")); (s "body_text", JStr (s "b"))]) = RErr (s "unknown field")) /\
+  (exists md, lookup_message FlattenFacts.fls (q "Self") = Some md /\ FlattenFacts.flatten_self_free FlattenFacts.fls md = false).
+Proof. exact FlattenFacts.flatten_set_never_reflected_nonvacuous. Qed.
+
+(* protojson both ways on wt1 values: ProtoJsonFacts.pj_roundtrip / C04_roundtrip_partial for message types that declare
+   plain (not discriminated) oneofs, which wt rejects *)
+Theorem C04_pj_roundtrip_wt1 : forall E, ExtLaws E -> forall sc tn m j,
+  OneofPj.wt1 sc tn m = true -> pj_marshal E sc tn m = ROk j -> pj_unmarshal E sc tn j = ROk m.
+Proof. exact FlattenFacts.pj_roundtrip_wt1. Qed.
+Print Assumptions C04_pj_roundtrip_wt1.
+Theorem C04_roundtrip_partial_wt1 : forall E, ExtLaws E -> forall sc tn m j,
+  owns sc tn = false -> OneofPj.wt1 sc tn m = true ->
+  encode E sc tn m = ROk j -> decode E sc tn j = ROk (norm sc tn m).
+Proof. exact FlattenFacts.C04_roundtrip_plain1. Qed.
+Print Assumptions C04_roundtrip_partial_wt1.
+
+(* ==== every codec at once ======================================================================================= *)
+(* ONE round-trip theorem for every message type, whatever owns its MarshalJSON: no codec, nullable, int64 NUMBER,
+   bytes_encoding, timestamp_format, empty_behavior, root unwrap, map-value unwrap, flatten, discriminated oneof —
+   and two features at once, where the emitted code does not compile, the model's encoder answers RUnm and the case is
+   vacuous.  Hypotheses: OneofPj.wt1 (wt generalised to types that declare oneofs), defects_C04 = [], encode = ROk, and
+   ONE computable predicate CodecAll.codec_side_ok: the case distinction on owner_of that collects what the per-codec
+   theorems still ask for (C04_codec_side_ok_demands lists it owner by owner). *)
+Theorem C04_roundtrip_all_codecs : forall E, ExtLaws E -> forall sc tn m j,
+  OneofPj.wt1 sc tn m = true ->
+  defects_C04 sc tn m = [] ->
+  CodecAll.codec_side_ok sc tn m = true ->
+  encode E sc tn m = ROk j -> decode E sc tn j = ROk (norm sc tn m).
+Proof. exact CodecAll.C04_roundtrip_all_codecs. Qed.
+Print Assumptions C04_roundtrip_all_codecs.
+
+(* with the hypothesis of C04_roundtrip_full: C04_roundtrip_full restricted by codec_side_ok and nothing else *)
+Theorem C04_roundtrip_all_codecs_wt : forall E, ExtLaws E -> forall sc tn m j,
+  wt sc (KMessage tn) (FM m) = true ->
+  defects_C04 sc tn m = [] ->
+  CodecAll.codec_side_ok sc tn m = true ->
+  encode E sc tn m = ROk j -> decode E sc tn j = ROk (norm sc tn m).
+Proof. exact CodecAll.C04_roundtrip_all_codecs_wt. Qed.
+Print Assumptions C04_roundtrip_all_codecs_wt.
+
+(* how far C04_roundtrip_full is: what codec_side_ok demands, owner kind by owner kind.  Nothing for "no codec"; for the
+   five field codecs CodecAll.no_members ("no field is a member of a real oneof": what wt asks of every message type
+   anyway — their theorems are stated with wt); the unwrap codecs cannot have oneof members (a root-unwrap field is
+   repeated or a map, the map-value codec does not compile with a member): their own side conditions only *)
+Example C04_codec_side_ok_demands : forall sc tn md m, lookup_message sc tn = Some md ->
+  (owner_of sc md = OwnNone -> CodecAll.codec_side_ok sc tn m = true) /\
+  (forall ft, CodecCompose.field_codec_ft ft = true -> owner_of sc md = Own ft -> CodecAll.codec_side_ok sc tn m = CodecAll.no_members md) /\
+  (owner_of sc md = Own FtUnwrapRoot -> CodecAll.codec_side_ok sc tn m = UnwrapRootFacts.unwrap_root_dom sc md) /\
+  (owner_of sc md = Own FtUnwrapMap ->
+     CodecAll.codec_side_ok sc tn m = UnwrapMapFacts.gj_enums_rt sc md m && UnwrapMapFacts.reflected_maps_plain sc md m) /\
+  (owner_of sc md = Own FtFlatten ->
+     CodecAll.codec_side_ok sc tn m = FlattenFacts.flatten_children_known sc md && FlattenFacts.flatten_probe_ok sc md m) /\
+  (owner_of sc md = Own FtOneof ->
+     CodecAll.codec_side_ok sc tn m =
+       NullableFacts.nodup_str (map o_name (m_oneofs md)) && OneofFacts.oneof_keys_ok sc md m &&
+       OneofFacts.disc_values_ok md && OneofFacts.variant_types_plain sc md m && OneofFacts.variant_no_gap sc md m) /\
+  (owner_of sc md = OwnMany -> CodecAll.codec_side_ok sc tn m = true).
+Proof. exact CodecAll.codec_side_ok_demands. Qed.
+(* for a value well-typed in the sense of C04_roundtrip_full (wt), no_members holds by itself: nothing remains for "no
+   codec", the five field codecs and root unwrap of messages *)
+Example C04_codec_side_ok_demands_wt : forall sc tn md m,
+  str_eqb tn ts_name = false -> find_message (all_messages sc) tn = Some md -> wt sc (KMessage tn) (FM m) = true ->
+  (owner_of sc md = OwnNone -> CodecAll.codec_side_ok sc tn m = true) /\
+  (forall ft, CodecCompose.field_codec_ft ft = true -> owner_of sc md = Own ft -> CodecAll.codec_side_ok sc tn m = true) /\
+  (owner_of sc md = Own FtUnwrapRoot -> UnwrapRootFacts.msg_elems sc md = true -> CodecAll.codec_side_ok sc tn m = true).
+Proof. exact CodecAll.codec_side_ok_demands_wt. Qed.
+
+(* non-vacuity on the shared schema xs, ten owner kinds (all_case_ok: every hypothesis, the JSON, the evaluated conclusion) *)
+Example C04_roundtrip_all_codecs_nonvacuous :
+  CodecAll.all_case_ok xs (q "Leaf") OwnNone
+    [(s "a", vstr "x"); (s "n", vint 3)]
+    (JObj [(s "a", JStr (s "x")); (s "n", JStr (s "3"))])
+    [(s "a", vstr "x"); (s "n", vint 3)] /\
+  CodecAll.all_case_ok xs (q "Nums") (Own FtInt64)
+    [(s "big", vint 9007199254740993); (s "name", vstr "n")]
+    (JObj [(s "big", JNum 9007199254740993); (s "name", JStr (s "n"))])
+    [(s "big", vint 9007199254740993); (s "name", vstr "n")] /\
+  CodecAll.all_case_ok xs (q "Nul") (Own FtNullable)
+    [(s "id", vstr "x")]
+    (JObj [(s "id", JStr (s "x")); (s "nick", JNull)])
+    [(s "id", vstr "x")] /\
+  CodecAll.all_case_ok xs (q "Emp") (Own FtEmpty)
+    [(s "nul_it", FM []); (s "omit", FM []); (s "id", vstr "x")]
+    (JObj [(s "nulIt", JNull); (s "id", JStr (s "x"))])
+    [(s "nul_it", FM []); (s "id", vstr "x")] /\
+  CodecAll.all_case_ok xs (q "Times") (Own FtTs)
+    [(s "secs", tsv 5 123456789); (s "day", tsv 90000 1); (s "id", vstr "x")]
+    (JObj [(s "secs", JNum 5); (s "day", JStr (s "1970-01-02")); (s "id", JStr (s "x"))])
+    [(s "secs", tsv 5 0); (s "day", tsv 86400 0); (s "id", vstr "x")] /\
+  CodecAll.all_case_ok xs (q "Blob") (Own FtBytes)
+    [(s "h", FS (VBytes [ch 105; ch 183])); (s "id", vstr "x")]
+    (JObj [(s "h", JStr (s "69b7")); (s "id", JStr (s "x"))])
+    [(s "h", FS (VBytes [ch 105; ch 183])); (s "id", vstr "x")] /\
+  CodecAll.all_case_ok xs (q "BarList") (Own FtUnwrapRoot)
+    [(s "bars", FL [FM [(s "a", vstr "x")]; FM []])]
+    (JArr [JObj [(s "a", JStr (s "x"))]; JObj []])
+    [(s "bars", FL [FM [(s "a", vstr "x")]; FM []])] /\
+  CodecAll.all_case_ok xs (q "Series") (Own FtUnwrapMap)
+    [(s "by_sym", FMap [(VStr (s "A"), FM [(s "bars", FL [FM [(s "a", vstr "x")]; FM []])])]);
+     (s "total_count", vint 4); (s "ratio", FS (VFloat 4609434218613702656))]
+    (JObj [(s "bySym", JObj [(s "A", JArr [JObj [(s "a", JStr (s "x"))]; JObj []])]);
+           (s "totalCount", JNum 4); (s "ratio", jflt 4609434218613702656)])
+    [(s "by_sym", FMap [(VStr (s "A"), FM [(s "bars", FL [FM [(s "a", vstr "x")]; FM []])])]);
+     (s "total_count", vint 4); (s "ratio", FS (VFloat 4609434218613702656))] /\
+  CodecAll.all_case_ok xs (q "Person") (Own FtFlatten)
+    [(s "id", vstr "1")]
+    (JObj [(s "id", JStr (s "1"))])
+    [(s "id", vstr "1")] /\
+  CodecAll.all_case_ok xs (q "Event") (Own FtOneof)
+    [(s "eid", vstr "e"); (s "image", FM [(s "url", vstr "u")])]
+    (JObj [(s "eid", JStr (s "e")); (s "image", JObj [(s "url", JStr (s "u"))]); (s "ctype", JStr (s "image"))])
+    [(s "eid", vstr "e"); (s "image", FM [(s "url", vstr "u")])] /\
+  CodecAll.all_case_ok xs (q "FlatEvent") (Own FtOneof)
+    [(s "eid", vstr "e"); (s "wide", FM [])]
+    (JObj [(s "eid", JStr (s "e")); (s "ctype", JStr (s "wide"))])
+    [(s "eid", vstr "e"); (s "wide", FM [])].
+Proof. exact CodecAll.roundtrip_all_codecs_nonvacuous. Qed.
+Print Assumptions C04_roundtrip_all_codecs_nonvacuous.
+
+(* two MarshalJSON features on one message (int64 NUMBER + nullable): every other hypothesis holds, encode = RUnm *)
+Example C04_roundtrip_all_codecs_own_many_vacuous :
+  let m := [(s "big", vint 5)] in
+  (exists md, lookup_message CodecAll.als (q "Two") = Some md /\ owner_of CodecAll.als md = OwnMany) /\
+  OneofPj.wt1 CodecAll.als (q "Two") m = true /\ defects_C04 CodecAll.als (q "Two") m = [] /\
+  CodecAll.codec_side_ok CodecAll.als (q "Two") m = true /\
+  encode Ex CodecAll.als (q "Two") m = RUnm (s "two MarshalJSON features on one message (does not compile, C13)").
+Proof. exact CodecAll.roundtrip_all_codecs_own_many_vacuous. Qed.
+
+(* beyond wt: a plain (not discriminated) oneof on a message without a codec, and beside an unset flatten field — wt rejects
+   the type, wt1 accepts the value, codec_side_ok is true, and the theorem gives the round trip *)
+Example C04_roundtrip_all_codecs_plain_oneof :
+  CodecAll.all_case_ok CodecAll.als (q "Pick") OwnNone
+    [(s "id", vstr "x"); (s "b", vint 0)]
+    (JObj [(s "id", JStr (s "x")); (s "b", JNum 0)])
+    [(s "id", vstr "x"); (s "b", vint 0)] /\
+  wt CodecAll.als (KMessage (q "Pick")) (FM [(s "id", vstr "x"); (s "b", vint 0)]) = false /\
+  CodecAll.all_case_ok CodecAll.als (q "FlatPick") (Own FtFlatten)
+    [(s "id", vstr "x"); (s "a", vstr "y")]
+    (JObj [(s "id", JStr (s "x")); (s "a", JStr (s "y"))])
+    [(s "id", vstr "x"); (s "a", vstr "y")] /\
+  wt CodecAll.als (KMessage (q "FlatPick")) (FM [(s "id", vstr "x"); (s "a", vstr "y")]) = false.
+Proof. exact CodecAll.roundtrip_all_codecs_plain_oneof. Qed.
+
+(* no_members (asked of the five field codecs only) is a limit of the proofs, not a known exception: a plain oneof beside
+   an int64 NUMBER field: codec_side_ok is false, every other hypothesis holds, and the round trip holds *)
+Example C04_roundtrip_all_codecs_no_members_limit :
+  let m := [(s "big", vint 9007199254740993); (s "b", vint 0)] in
+  (exists md, lookup_message CodecAll.als (q "PickNum") = Some md /\ owner_of CodecAll.als md = Own FtInt64 /\ CodecAll.no_members md = false) /\
+  OneofPj.wt1 CodecAll.als (q "PickNum") m = true /\ wt CodecAll.als (KMessage (q "PickNum")) (FM m) = false /\
+  defects_C04 CodecAll.als (q "PickNum") m = [] /\ CodecAll.codec_side_ok CodecAll.als (q "PickNum") m = false /\
+  rt_holds Ex CodecAll.als (q "PickNum") m = true.
+Proof. exact CodecAll.roundtrip_all_codecs_no_members_limit. Qed.
+
+Example C04_codec_side_ok_examples :
+  CodecAll.codec_side_ok xs (q "Plain") [] = true /\ CodecAll.codec_side_ok xs (q "Strs") [(s "vals", FL [vstr "a"])] = true /\
+  CodecAll.codec_side_ok xs (q "Post") [(s "id", vstr "p")] = true /\
+  CodecAll.codec_side_ok xs (q "FlatEvent") [(s "times", FM [(s "secs", tsv 5 0)])] = false /\
+  CodecAll.codec_side_ok FlattenFacts.fls (q "Clash") [(s "street", vstr "s")] = false /\
+  CodecAll.codec_side_ok xs ts_name [] = true /\ CodecAll.codec_side_ok xs (s "x.v1.Missing") [] = true /\
+  OneofPj.wt1 xs (s "x.v1.Missing") [] = false.
+Proof. exact CodecAll.codec_side_ok_examples. Qed.
